@@ -85,7 +85,7 @@ partial def parseGeoms (st : WState) : Nat → List String → List GeomRec → 
       else if !liveNode st nd then none
       else if !(inI32 id && inI32 gref) then none
       else
-        match geomAdd gs nd t.toNat id p0 p1 with
+        match geomAdd Cfg.current gs nd t.toNat id p0 p1 with
         | .error _ => none
         | .ok gs =>
           let gs := if 0 < t then geomSetGref gs nd t.toNat id gref else gs
@@ -118,7 +118,21 @@ partial def parseSections (st : WState) : List String → Option WState
     | none => none
   | _ => none
 
-def opWriteMeshb (ws : List String) : String :=
+
+
+def dumpMesh (m : MeshFile) : String :=
+  let nodes := m.nodes.foldl (fun acc p => acc ++ " " ++ fmtBits p.x ++ " " ++ fmtBits p.y ++ " " ++ fmtBits p.z) ""
+  let cells := (cellInfos.zip m.cells).foldl (fun acc (ci, cs) =>
+    if cs.isEmpty then acc else
+      acc ++ " c " ++ ci.name ++ " " ++ toString cs.length ++
+        cs.foldl (fun a c => c.foldl (fun a x => a ++ " " ++ toString x) a) "") ""
+  let geoms := if m.geoms.isEmpty then "" else
+    " g " ++ toString m.geoms.length ++ m.geoms.foldl (fun a g =>
+      a ++ s!" {g.type} {g.id} {g.gref} {g.node} " ++ fmtBits g.p0 ++ " " ++ fmtBits g.p1) ""
+  let cad := if m.cad.isEmpty then "" else " b " ++ hexOfBytes m.cad
+  s!"ok d {if m.twod then 2 else 3} n {m.nodes.length}" ++ nodes ++ cells ++ geoms ++ cad
+
+def opWriteMeshb (roundtrip : Bool) (ws : List String) : String :=
   match ws with
   | v :: twod :: "n" :: ns :: rest =>
     match int? v, int? twod, int? ns with
@@ -136,23 +150,13 @@ def opWriteMeshb (ws : List String) : String :=
             { twod := twod == 1, nodes := slots.filterMap id, cells := st.cells,
               geoms := st.geoms.map (fun g => { g with node := st.o2n.getD g.node.toNat (-1) }), cad := st.cad }
           let ver := if 1 < v then v.toNat else 2
-          "ok " ++ hexOfBytes (encodeMeshb ver m)
+          if roundtrip then
+            match decodeMeshbWith Cfg.current (encodeMeshb ver m) with
+            | .ok m' => dumpMesh m'
+            | .error e => e.name
+          else "ok " ++ hexOfBytes (encodeMeshb ver m)
     | _, _, _ => "bad-op"
   | _ => "bad-op"
-
-/-! ### read_meshb -/
-
-def dumpMesh (m : MeshFile) : String :=
-  let nodes := m.nodes.foldl (fun acc p => acc ++ " " ++ fmtBits p.x ++ " " ++ fmtBits p.y ++ " " ++ fmtBits p.z) ""
-  let cells := (cellInfos.zip m.cells).foldl (fun acc (ci, cs) =>
-    if cs.isEmpty then acc else
-      acc ++ " c " ++ ci.name ++ " " ++ toString cs.length ++
-        cs.foldl (fun a c => c.foldl (fun a x => a ++ " " ++ toString x) a) "") ""
-  let geoms := if m.geoms.isEmpty then "" else
-    " g " ++ toString m.geoms.length ++ m.geoms.foldl (fun a g =>
-      a ++ s!" {g.type} {g.id} {g.gref} {g.node} " ++ fmtBits g.p0 ++ " " ++ fmtBits g.p1) ""
-  let cad := if m.cad.isEmpty then "" else " b " ++ hexOfBytes m.cad
-  s!"ok d {if m.twod then 2 else 3} n {m.nodes.length}" ++ nodes ++ cells ++ geoms ++ cad
 
 def opReadMeshb (ws : List String) : String :=
   match ws with
@@ -165,7 +169,7 @@ def opReadMeshb (ws : List String) : String :=
       | .error e => e.name
   | _ => "bad-op"
 
-/-- generator support: which of the known hazards does the *faithful* reader model run into?
+/-- generator support: which of the known hazards does the currently selected reader model (`Cfg.current`) run into?
     `hang` header scan does not return; `index K` accepted with a vertex index ≥ nnode (largest K);
     otherwise `clean` -/
 def opClassifyMeshb (ws : List String) : String :=
@@ -174,8 +178,9 @@ def opClassifyMeshb (ws : List String) : String :=
     match bytesOfHex? h with
     | none => "bad-op"
     | some bs =>
-      match decodeMeshbWith Cfg.faithful bs with
+      match decodeMeshbWith Cfg.current bs with
       | .error .diverge => "hang"
+      | .error .undefined => "index 2147483647"
       | .error _ => "clean"
       | .ok m =>
         if indicesInRange m then "clean" else
@@ -257,11 +262,16 @@ def opClassifyField (metric : Bool) (ws : List String) : String :=
     | some nn, some bs =>
       if nn < 1 ∨ 60000 < nn then "bad-op" else
       let r : Except Status Unit :=
-        if metric then (decodeMetricSolbWith Cfg.faithful nn.toNat bs).map (fun _ => ())
-        else (decodeSolbWith Cfg.faithful nn.toNat bs).map (fun _ => ())
+        if metric then (decodeMetricSolbWith Cfg.current nn.toNat bs).map (fun _ => ())
+        else (decodeSolbWith Cfg.current nn.toNat bs).map (fun _ => ())
       match r with
       | .error .diverge => "hang"
-      | _ => "clean"
+      | .error .undefined => "ub"
+      | _ =>
+        -- the scalar reader sizes (and initialises) its block by the declared count before reading
+        if !metric ∧ scalarAlloc Cfg.current nn.toNat bs > 2 ^ 26 then "alloc"
+        else if !metric ∧ scalarIdleIterations Cfg.current nn.toNat bs > 10 ^ 6 then "slow"
+        else "clean"
     | _, _ => "bad-op"
   | _ => "bad-op"
 
@@ -279,7 +289,8 @@ def opRobust (nargs : Nat) (ws : List String) : String :=
 
 def step (_ : Unit) (line : String) : Unit × String :=
   let r : String := match words line with
-    | "write_meshb" :: ws => opWriteMeshb ws
+    | "write_meshb" :: ws => opWriteMeshb false ws
+    | "rt_meshb" :: ws => opWriteMeshb true ws
     | "read_meshb" :: ws => opReadMeshb ws
     | "classify_meshb" :: ws => opClassifyMeshb ws
     | "write_solb" :: ws => opWriteField false ws
